@@ -10,11 +10,18 @@ func VerifInt64() {
 	var x Decimal
 	K := verifParamInt("K")
 	W := verifParamInt("W")
-	verifNondetCoeff("xc", &x.Coeff, int(K))
+	ze := verifParamIntOr("zeroexp", 0)
+	if ze != 0 {
+		// a zero with one given (large) exponent: the scaling step runs on concrete values
+		x.Coeff.SetInt64(0)
+		x.Exponent = int32(ze)
+	} else {
+		verifNondetCoeff("xc", &x.Coeff, int(K))
+		x.Exponent = int32(verifConcretize(verifNondetInt("xe", -W, W)))
+	}
 	x.Negative = verifNondetBool("xneg")
-	x.Exponent = int32(verifConcretize(verifNondetInt("xe", -W, W)))
 	x.Form = Finite
-	if x.Coeff.Sign() == 0 && x.Exponent > 24 {
+	if ze == 0 && x.Coeff.Sign() == 0 && x.Exponent > 24 {
 		// the x10 loop runs Exponent times for a zero coefficient (up to 100000): outside the bound
 		verifAssume(false)
 	}
